@@ -55,6 +55,29 @@ def bi_cases():
     return out
 
 
+def small_arith_cases():
+    """every arithmetic and comparison operator (and shifts) on every ordered pair of small machine integers of both signs,
+    once on literals and once through parameters: the machine-integer builtins inside the 32-bit Java profile"""
+    from vlib.families import B, L, P, PB, V, AOPS, COPS, chunks, in_subset
+    lits = [0, 1, -1, 2, -2, 7, -7, 12, -18, 35, -14, 1 << 20, -(1 << 20)]
+    helpers = [('fn', 'h%d' % i, [('p', 'I'), ('q', 'I')], 'I' if op in AOPS else 'Bool', [('value', B(op, V('p'), V('q')))]) for i, op in enumerate(AOPS + COPS)]
+    helpers.append(('fn', 'hs', [('p', 'I'), ('q', 'I')], 'I', [('value', ('shift', V('p'), V('q')))]))
+    stmts = []
+    for i, op in enumerate(AOPS + COPS):
+        pr = P if op in AOPS else PB
+        for a in lits:
+            for b in lits:
+                for st in (pr(B(op, L(a), L(b))), pr(('call', 'h%d' % i, [L(a), L(b)]))):
+                    if in_subset(('MI', helpers + [st])) and in_profile(('MI', helpers + [st])):
+                        stmts.append(st)
+    for a in lits:
+        for n in (-20, -8, -1, 0, 1, 8):
+            for st in (P(('shift', L(a), L(n))), P(('call', 'hs', [L(a), L(n)]))):
+                if in_subset(('MI', helpers + [st])) and in_profile(('MI', helpers + [st])):
+                    stmts.append(st)
+    return [('J1', ('MI', list(helpers) + list(g))) for g in chunks(stmts, 24)]
+
+
 def main(tier):
     ck = Check(PID, 'exploration', tier, deadline_s=900 if tier == 'quick' else 3000)
     b = ck.build('aldor', 'foam', 'libaldor', 'jars')
@@ -62,16 +85,25 @@ def main(tier):
     fams = ['F3', 'F5', 'F6', 'F8', 'F9', 'F10', 'F1', 'F2', 'F4']
     allc = [(f, c) for f, c in families.all_cases(tier, fams) if in_profile(c)]
     if tier == 'quick':
-        # quick bound: the first 60 profile members of every family
-        seen = {}
-        cases = []
+        # quick bound: 60 profile members of every family, evenly spaced over the family (so that every operator group of the
+        # enumeration is met)
+        byf = {}
         for f, c in allc:
-            seen[f] = seen.get(f, 0) + 1
-            if seen[f] <= 60:
-                cases.append((f, c))
+            byf.setdefault(f, []).append((f, c))
+        cases = []
+        for f in fams:
+            lst = byf.get(f, [])
+            if len(lst) <= 60:
+                cases += lst
+            else:
+                cases += [lst[(i * len(lst)) // 60] for i in range(60)]
     else:
         cases = allc
     levels = (1, 3) if tier == 'quick' else (1, 3, 9)
+    j1 = small_arith_cases()
+    if tier == 'quick':
+        j1 = [j1[(i * len(j1)) // 40] for i in range(40)] if len(j1) > 40 else j1
+    cases = cases + j1
     jb = bi_cases()
     njb0 = len(cases)
     cases = cases + jb
